@@ -56,8 +56,18 @@ def generate(ctx):
     bad = [[0.0], [0.0, 1.0], [0.0, 0.5, 0.5, 1.0], [0.0, 0.6, 0.4, 1.0], [0.1, 0.5, 1.0], [0.0, 0.5, 0.9],
            [5e-9, 0.5, 1.0], [2e-8, 0.5, 1.0], [0.0, 0.5, 1.000005], [0.0, 0.5, 1.00002], [0.0, 0.5, 0.99998],
            [0.0, 1.0, 0.5], [1.0, 0.0], [0.0, 0.0, 1.0], [0.0, 0.3, 1.0, 1.0], [-5e-9, 0.2, 1.0], [0.0, 0.2, 0.1, 0.3, 1.0]]
+    # defects confined to the first / last interval (end points fine, interior fine)
+    bad += [[0.0, 1.2, 1.0], [0.0, -0.2, 1.0], [0.0, 0.4, 0.8, 1.1, 1.0], [0.0, -0.1, 0.3, 0.6, 1.0], [0.0, 1.0, 1.0],
+            [0.0, 0.0, 0.5, 1.0], [0.0, 0.5, 1.0, 1.0], [0.0, 0.5, 1.5, 1.0], [0.0, -0.5, 0.5, 1.0]]
     for b in bad:
         yield 'accept', {'b': b}
+    for _ in range(8 if ctx.tier == 'quick' else 60):
+        # valid level set with ONE internal boundary moved: onto / past a neighbour, or outside [0, 1]
+        K = int(rng.integers(2, 7)); b = util.uneven_boundaries(rng, K)
+        i = int(rng.integers(1, K)); mode = int(rng.integers(0, 4))
+        b[i] = [b[i - 1], b[i + 1], b[i + 1] + 0.25, b[i - 1] - 0.25][mode]
+        ctx.count('accept:moved-internal-boundary')
+        yield 'accept', {'b': b.tolist()}
     for _ in range(6 if ctx.tier == 'quick' else 40):
         K = int(rng.integers(1, 7)); b = util.uneven_boundaries(rng, K)
         if rng.integers(0, 2) and K >= 2:
